@@ -547,8 +547,7 @@ package core
 //@ func (s Slot) Epoch
 //@ props C15
 //@ pure
-//@ requires s.SlotsPerEpoch > 0
-//@ ensures result == s.Slot / s.SlotsPerEpoch
+//@ ensures s.SlotsPerEpoch > 0 ==> result == s.Slot / s.SlotsPerEpoch
 
 //@ func (s Slot) Next
 //@ props C15
